@@ -21,6 +21,7 @@ where
         "merkle" => symf::merkle::family::<F>(ctx),
         "plonk" => symf::plonk::family::<F>(ctx),
         "plonkv" => symf::plonkv::family::<F>(ctx),
+        "recursion" => symf::recursion::family::<F>(ctx),
         "stark" => symf::stark::family::<F>(ctx),
         "transcript" => symf::transcript::family::<F>(ctx),
         _ => panic!("unknown family {family}"),
